@@ -354,6 +354,17 @@ let cmd_scene t =
      Printf.printf "scene %s %s\n" id (if Scene.check_scene sc l then "true" else "false")
    with Nonfinite -> Printf.printf "scene %s nonfinite\n" id)
 
+(* noshare <id> <prec> <multipolygon>: the verified certificate Cert02Edges.no_shared_boundary on a result *)
+let cmd_noshare t =
+  let id = next t in
+  let _f = fmt_of_string (next t) in
+  (try
+     let rdq () = (try q_of_tok (next t) with Failure _ -> raise Nonfinite) in
+     let pt _ = let x = rdq () in let y = rdq () in (x, y) in
+     let mp = read_list t (fun t -> read_list t (fun t -> read_list t pt)) in
+     Printf.printf "noshare %s %s\n" id (b01 (Cert02Edges.no_shared_boundary (Obj.magic mp)))
+   with Nonfinite -> Printf.printf "noshare %s nonfinite\n" id)
+
 (* cert14 (arguments as subdiv): the certificate Cert14 on the model's own run of subdivide: "1" / "0", "-" if the sweep
    did not return *)
 let cmd_cert14 t =
@@ -531,6 +542,7 @@ let () =
          | "splay" -> cmd_splay t
          | "scene" -> cmd_scene t
          | "cert04" -> cmd_cert04 t
+         | "noshare" -> cmd_noshare t
          | "cert14" -> cmd_cert14 t
          | "orders" -> cmd_orders t
          | "pair" -> cmd_pair t
